@@ -41,6 +41,7 @@ var (
 
 // keyFor returns a fixed secp256k1 key per logical name.
 func keyFor(name string) *ecdsa.PrivateKey {
+	name = strings.TrimSuffix(name, "~") // "w1~" is wallet w1 under another spelling: same key
 	keyMu.Lock()
 	defer keyMu.Unlock()
 	if k, ok := keyCache[name]; ok {
@@ -65,7 +66,13 @@ func walletOf(name string) string {
 	if name == "" {
 		return ""
 	}
-	return crypto.PubkeyToAddress(keyFor(name).PublicKey).Hex()
+	addr := crypto.PubkeyToAddress(keyFor(name).PublicKey).Hex()
+	if strings.HasSuffix(name, "~") {
+		// the same wallet spelled in lower case: to the pool a different account string (accounts
+		// are keyed by the string the request names), signed for by the same key
+		return strings.ToLower(addr)
+	}
+	return addr
 }
 
 // ---------- deposit-aware balance store (stands for the contract proxy) ----------
